@@ -41,7 +41,7 @@ def plan(tier: str, seed: int) -> list[dict]:
 
     def add(opt, desc, cfg, mode="serial", workers=None, tag=""):
         runs.append({"id": len(runs) + 1, "opt": opt, "desc": desc, "cfg": cfg, "mode": mode, "workers": workers, "tag": tag,
-                     "debug": rng.random() < 0.12, "other": gen.task_desc(rng, desc.get("encoding"))})
+                     "debug": rng.random() < 0.12, "other": _other(rng, desc)})
         if rng.random() < 0.1:
             desc["scribble"] = True        # the objective overwrites its argument after reading it (the library must hand it a copy)
 
@@ -84,6 +84,20 @@ def plan(tier: str, seed: int) -> list[dict]:
     return runs
 
 
+def _other(rng, desc):
+    """the task a used instance sees between two runs of `desc`: another task of the same encoding, or - half of the time - a
+    clone with the SAME variables and seed but another objective and direction (identical position streams: anything cached
+    per position or per dimension is exposed)"""
+    if rng.random() < 0.5:
+        return gen.task_desc(rng, desc.get("encoding"))
+    o = json.loads(json.dumps(desc))
+    o["family"] = rng.choice([f for f in gen.FAMILIES if f != desc["family"]])
+    o["minmax"] = "max" if desc.get("minmax") == "min" else "min"
+    o["offset"] = 17.5
+    o.pop("scribble", None)
+    return o
+
+
 # ----------------------------------------------------------------------------- one run (worker process)
 class _Timeout(Exception):
     pass
@@ -94,7 +108,15 @@ def _alarm(signum, frame):
 
 
 def _dump_model(m) -> str:
-    return json.dumps(m.model_dump(), sort_keys=True, default=repr)
+    d = m.model_dump()
+    if hasattr(m, "get_bounds") and hasattr(m, "variables"):
+        # a task's search-space description as the caller observes it (C09 lists the bounds explicitly)
+        try:
+            lb, ub = m.get_bounds()
+            d["bounds"] = [repr(np.asarray(lb).tolist()), repr(np.asarray(ub).tolist())]
+        except Exception as ex:
+            d["bounds"] = f"raises {type(ex).__name__}"
+    return json.dumps(d, sort_keys=True, default=repr)
 
 
 def _field_diff(a: str, b: str) -> list[str]:
